@@ -421,6 +421,11 @@ func (b *bitstream) ReadAnnotations(symbolTable SymbolTable) ([]SymbolToken, err
 			b.pos - lengthOfAnnotFieldLength}
 	}
 
+	if annotFieldLength > b.len-lengthOfAnnotFieldLength {
+		// The subtraction below must not wrap: the annotations cannot be longer than the wrapper.
+		return nil, &SyntaxError{"malformed annotation", b.pos - lengthOfAnnotFieldLength}
+	}
+
 	remainingAnnotationLength := b.len - lengthOfAnnotFieldLength - annotFieldLength
 
 	if remainingAnnotationLength <= 0 {
